@@ -7,7 +7,7 @@
    All statements quantify over every threshold (below and above it) and every operation list:
    any interleaving of expect / processed / already-known notifications and ticks, duplicates and
    compound sequence values included. *)
-From SG Require Import Base.Prelude C20.SeqIdGen C20.SeqId C20.SeqIdCodec C17.Checkpointer C17.CheckpointerProofs
+From SG Require Import Base.Prelude C20.SeqIdGen C20.SeqId C20.SeqIdOrder C20.SeqIdCodec C17.Checkpointer C17.CheckpointerProofs
   C17.Persist C17.PersistProofs C17.RegressProofs.
 Open Scope N_scope.
 
@@ -170,6 +170,19 @@ Proof.
   intros E. destruct (Hag E) as [A1 [A2 [A3 A4]]]. split; [congruence|split; assumption].
 Qed.
 Print Assumptions C17_local_remote_mismatch_is_safe.
+
+(* the "lower of the two" is the minimum in SequenceID.Before (C20's order on tokens of every shape: seq,
+   trig:seq, low::seq, low:trig:seq) - not in any numeric projection such as SafeSequence, which orders
+   4 and 7:3 the other way round (C17_Refuted.lower_by_safe_sequence_would_skip) *)
+Theorem C17_mismatch_lower_is_before_minimum : forall L R,
+  (lower_of L R = val_of (seq_of L) \/ lower_of L R = val_of (seq_of R)) /\
+  before (val_of (seq_of L)) (lower_of L R) = false /\ before (val_of (seq_of R)) (lower_of L R) = false.
+Proof.
+  intros L R. unfold lower_of. destruct (before (val_of (seq_of R)) (val_of (seq_of L))) eqn:Hb.
+  - split; [right; reflexivity|]. split; [apply before_asym; exact Hb|apply before_irrefl].
+  - split; [left; reflexivity|]. split; [apply before_irrefl|exact Hb].
+Qed.
+Print Assumptions C17_mismatch_lower_is_before_minimum.
 
 (* CONFIG CHANGE RESETS: a document missing or stamped with another config hash makes the new Checkpointer
    start from zero and count a miss; conversely a non-zero start means both documents carry its hash.  (The
